@@ -334,6 +334,18 @@ func callExpand(c *expCase, cc *concrete, docBytes map[string][]byte, ld *recLoa
 		if strings.Contains(c.Flags, "handbuilt") {
 			handBuilt(&sw)
 		}
+		if strings.Contains(c.Flags, "staleroot") && !refsBackIntoRoot(c) {
+			// the specification was amended in memory after it was read: what the loader has at the root's
+			// location is an older version (other labels).  The root's own "#/..." references mean the document
+			// that textually contains them, i.e. the one in memory.  (Graphs in which another document refers back
+			// into the root are left alone: those references can only be read from the stored version.)
+			stale := map[string][]byte{}
+			for k, v := range ld.docs {
+				stale[k] = v
+			}
+			stale[cc.urls[0]] = labelRe.ReplaceAll(docBytes[cc.urls[0]], []byte(`:"stale-n$1"`))
+			ld.docs = stale
+		}
 		opts := mkOpts()
 		if c.Entry == "SkipThenFull" {
 			opts.SkipSchemas = true
@@ -657,4 +669,14 @@ func handBuilt(sw *spec.Swagger) {
 			}
 		}
 	}
+}
+
+// refsBackIntoRoot: some node outside the root document refers into the root document.
+func refsBackIntoRoot(c *expCase) bool {
+	for _, a := range c.Nodes {
+		if a.T == "ref" && a.Doc > 0 && a.To > 0 && c.Nodes[a.To-1].Doc == 0 {
+			return true
+		}
+	}
+	return false
 }
